@@ -35,7 +35,7 @@ Definition obs_level_safe (table : list evclass) (tr : list event) (outs : list 
 Definition obs_delivery_ok (table : list evclass) (cap : nat) (tr : list event) (outs : list obs) : bool :=
   forallb (fun sid =>
     list_eqb obs_eqb (filter (fun '(_, rid, _) => belongs tr sid rid) outs)
-                     (map obs_of (spec_delivery table cap sid tr))) (sids_of tr []).
+                     (map obs_of (gspec_delivery table cap sid tr))) (sids_of tr []).
 
 Definition spec_ok (table : list evclass) (cap : nat) (tr : list event) (outs : list obs) : bool :=
   obs_level_safe table tr outs && obs_delivery_ok table cap tr outs.
